@@ -32,6 +32,12 @@ func run(c *mon.Case) {
 		probes = 10
 	}
 	wide := base < 1<<63 && r.Intn(8) == 0
+	type pastStore struct {
+		ex   expr.Expr
+		addr uint64
+		w    int
+	}
+	var past []pastStore
 	for op := 0; op < nops && !c.Failed(); op++ {
 		switch x := r.Intn(100); {
 		case x < 60:
@@ -41,14 +47,50 @@ func run(c *mon.Case) {
 			}
 			addr := base + uint64(r.Intn(win))
 			var ex expr.Expr
-			switch r.Intn(3) {
+			switch r.Intn(4) {
 			case 0: // constant of the write width
 				ex = gen.Const(r, expr.Width(w))
 			case 1: // constant of another width
 				ex = gen.Const(r, gen.SmallWidth(r))
-			default:
+			case 2:
 				ex = g.Expr(2)
+			default:
+				// a value stored before (the same object or a structural copy), written
+				// again: at the same place, over exactly what may be left of the old write
+				// (tail or head remnant), shifted, or somewhere else, with the old or a
+				// new width
+				if len(past) == 0 {
+					ex = g.Expr(2)
+					break
+				}
+				o := past[r.Intn(len(past))]
+				ex = o.ex
+				if r.Intn(2) == 0 {
+					ex = refir.Clone(ex)
+				}
+				switch r.Intn(6) {
+				case 0:
+					addr, w = o.addr, o.w
+				case 1: // tail remnant [addr+j, addr+w)
+					if o.w > 1 {
+						j := 1 + r.Intn(o.w-1)
+						addr, w = o.addr+uint64(j), o.w-j
+					}
+				case 2: // head remnant
+					if o.w > 1 {
+						addr, w = o.addr, 1+r.Intn(o.w-1)
+					}
+				case 3:
+					addr = o.addr + uint64(r.Intn(o.w))
+				case 4:
+					w = o.w
+				}
+				if addr >= base+win {
+					addr = base + win - 1
+				}
+				c.Count("stores_of_an_earlier_value", 1)
 			}
+			past = append(past, pastStore{ex, addr, w})
 			hist = append(hist, fmt.Sprintf("store(%#x,%s,%d)", addr, clip(refir.String(ex)), w))
 			if !k.Store(addr, ex, w) {
 				return
@@ -129,7 +171,7 @@ func clip(s string) string {
 func main() {
 	mon.Main(mon.Spec{
 		Prop: "C14",
-		Rule: "case = history of 40 stores/loads/missing queries over a 48-byte window at bases {0,0x1000,2^32-24,2^63,2^64-64}, widths 1..16 (sometimes up to 255), constant and symbolic values whose width differs from the write width; after every operation Blocks() and random load/missing probes are compared with a shadow byte map on 6 valuations; non-trivial history = contains a successful load that reads a stored value only in part or spans >=2 stored values",
+		Rule: "case = history of 40 stores/loads/missing queries over a 48-byte window at bases {0,0x1000,2^32-24,2^63,2^64-64}, widths 1..16 (sometimes up to 255), constant and symbolic values whose width differs from the write width, a quarter of the stores re-writing an earlier value (same object or structural copy) at the same place, over exactly its tail/head remnant, shifted or elsewhere; after every operation Blocks() and random load/missing probes are compared with a shadow byte map on 6 valuations; non-trivial history = contains a successful load that reads a stored value only in part or spans >=2 stored values",
 		Explanation: "oracle: shadow map address -> (stored value, byte index); load ok iff all bytes written, width exact, value equal under every valuation (refir big-int evaluation); Missing/Blocks compared as canonical interval lists; S-expression prints of every value handed in or returned, and expr.Zero/One, are re-checked at the end of each history",
 		Assumptions: []string{"refir reference evaluator", "addresses never wrap 2^64 (property's stated domain)"},
 		Cases: func(t string) int {
@@ -144,7 +186,7 @@ func main() {
 			}
 			return 2000
 		},
-		RequiredCounts: []string{"loads_nontrivial", "loads_missing", "stores"},
+		RequiredCounts: []string{"loads_nontrivial", "loads_missing", "stores", "stores_of_an_earlier_value"},
 		Run:            run,
 	})
 }
